@@ -3,7 +3,7 @@
 Oracle / tie: random call sequences on ONE TBRMatchedMarkets object; every answer is compared with
 the answer of a freshly built object (for search_results(): with the result of the most recent
 search, as a fresh object returns it); the caller's parameter object and input frame are compared
-before / after.  The model (pure functions of data and parameters) is compared on the queries.
+before / after; every list of designs handed to the caller is emptied by the harness after reading it.  The model (pure functions of data and parameters) is compared on the queries.
 Proof: props/C10.v (the ranges filled in by the greedy search do not change treatment sizes;
 retrieval is pure).
 """
@@ -20,8 +20,16 @@ OPS = ['geos_over_budget', 'geos_too_large', 'geos_must_include', 'geos_within_c
 
 
 def canon_designs(ds):
-  return [(sorted(str(g) for g in d.treatment_geos), sorted(str(g) for g in d.control_geos),
-           [float(v) for v in d.score.score]) for d in ds]
+  out = [(sorted(str(g) for g in d.treatment_geos), sorted(str(g) for g in d.control_geos),
+          [float(v) for v in d.score.score]) for d in ds]
+  # the caller consumes what it was given: the list and the designs' geo sets are its own to change
+  if isinstance(ds, list):
+    for d in ds:
+      for grp in (d.treatment_geos, d.control_geos):
+        if isinstance(grp, set):
+          grp.clear()
+    ds.clear()
+  return out
 
 
 def same(a, b):
